@@ -52,7 +52,9 @@
      ReleaseAfterFlush  *_journal_release(reset = 1) (jsb.s_start = 0) runs after that flush, not before it
      FlushFsyncs        unix_flush() = flush_cached_blocks() + fsync()
      OpenFsyncs         unix_open_channel() fsyncs the descriptor ("throw away previous errors"); the protocol's
-                        property-level invariants do NOT depend on it (checked with FALSE), only FlagAfterEmptyCrash does
+                        property-level invariants do NOT depend on it (checked with FALSE), only FlagAfterEmptyCrash does --
+                        and, with a journal device, Done: the journal's channel is closed without fsync (jclose), so the release
+                        is durable at the end of the run only through the fsync of the next open of the journal device
      SyncFsDev          sync_blockdev(journal->j_fs_dev) flushes the channel of the FILESYSTEM device (K_DEV_FS -> fs->io);
                         FALSE = it picks the journal device's channel instead (the same channel when the journal is internal) *)
 EXTENDS Naturals, Integers, Sequences, FiniteSets, TLC
